@@ -99,7 +99,9 @@ class Ctx:
         self.extra = {}
         os.makedirs(BUILD, exist_ok=True)
         os.makedirs(os.path.join(VERIF, 'replays', pid), exist_ok=True)
-        os.makedirs(os.path.join(VERIF, 'evidence'), exist_ok=True)
+        # evidence always describes /repo itself: runs against a scratch copy (seeded changes) write theirs elsewhere
+        self.evdir = os.environ.get('VERIF_EVIDENCE_DIR') or os.path.join(VERIF, 'evidence')
+        os.makedirs(self.evdir, exist_ok=True)
 
     @property
     def thorough(self):
@@ -163,7 +165,7 @@ class Ctx:
             'wall_s': round(time.time() - self.t0, 2),
             'violations': len(self.violations),
         }
-        with open(os.path.join(VERIF, 'evidence', self.pid + '.json'), 'w') as fh:
+        with open(os.path.join(self.evdir, self.pid + '.json'), 'w') as fh:
             json.dump(ev, fh, indent=1, default=str)
         sys.stdout.flush()
         return 1 if self.violations else 0
@@ -194,30 +196,104 @@ def write_coqproject():
         sh('coq_makefile -f _CoqProject -o Makefile', cwd=COQ)
 
 
+# Gen file -> properties whose TRANSLATOR tie it is.  When the translator refuses the current source for a file
+# (fail-closed: a construct outside its fragment), those properties report it; every other property that merely
+# builds on the file continues with the last accepted model (coq/GenSnapshot/, refreshed by tools/snapshot_gen.sh
+# on the unchanged tree) and is tied to the code by its correspondence checks alone, which run on every check.
+GEN_OWNERS = {'Symmetries.v': ('C17',), 'PhasePerm.v': ('C03',), 'OpOrder.v': ('C04',), 'CacheKey.v': ('C15',),
+              'ModeCtx.v': ('C15',), 'HeapSites.v': ('C14',), 'Ham.v': ('C19',), 'LocalOpsData.v': ('C18',),
+              'Ctor.v': ('C16',), 'Helpers.v': ('C05',), 'Interface.v': ('C08',)}
+SNAP = os.path.join(COQ, 'GenSnapshot')
+_GEN_ERRS = (SyntaxError, KeyError, IndexError, AttributeError, ValueError, TypeError, OSError, AssertionError)
+
+
+def _owned_files(g):
+    out = []
+    for f in glob.glob(os.path.join(SNAP, '*.v')) + glob.glob(os.path.join(COQ, 'Gen', '*.v')):
+        try:
+            head = open(f).readline()
+        except OSError:
+            continue
+        if 'tr/%s.py' % g in head and os.path.basename(f) not in out:
+            out.append(os.path.basename(f))
+    return out
+
+
+def _fallback(fname):
+    """put the last accepted model in place of a file the translator could not regenerate;
+    without a snapshot the file is removed (never a stale success)"""
+    snap = os.path.join(SNAP, fname)
+    dst = os.path.join(COQ, 'Gen', fname)
+    if os.path.exists(snap):
+        write_if_changed(dst, open(snap).read())
+        return True
+    for ext in ('.v', '.vo', '.vok', '.vos', '.glob'):
+        try:
+            os.remove(dst[:-2] + ext)
+        except OSError:
+            pass
+    return False
+
+
+FALLBACK = {}      # Gen file -> translator error, for the files replaced by their snapshot in this run
+
+
+def _dev_hash(texts):
+    """identifies (regenerated model, hand-written development): the memo key for 'does not build with this model'"""
+    import hashlib
+    h = hashlib.sha1()
+    for k in sorted(texts):
+        h.update(k.encode()); h.update(texts[k].encode())
+    for d in ('Base', 'Model', 'Proofs'):
+        for f in sorted(glob.glob(os.path.join(COQ, d, '*.v'))):
+            h.update(f.encode()); h.update(open(f, 'rb').read())
+    return h.hexdigest()
+
+
+_BADGEN = os.path.join(COQ, 'build', 'badgen')
+_REGEN_KEY = [None]
+
+
 def regen():
     """Regenerate Gen/*.v from the working tree.  Returns list of (generator, error)."""
     errs = []
+    FALLBACK.clear()
     from pygallina import Unsupported
+    catch = (Unsupported,) + _GEN_ERRS
+    texts = {}
     for g in generators():
         try:
             mod = importlib.import_module(g)
-            for fname, text in mod.generate_all(REPO).items():
-                write_if_changed(os.path.join(COQ, 'Gen', fname), text)
-        except (Unsupported, SyntaxError, KeyError, IndexError, AttributeError, ValueError, TypeError, OSError, AssertionError) as e:
-            errs.append((g, '%s: %s' % (type(e).__name__, e)))
-            # the files this generator owns are now stale: remove them so that exactly the
-            # theorems that depend on them stop checking (never a stale success)
-            for f in glob.glob(os.path.join(COQ, 'Gen', '*.v')):
-                try:
-                    head = open(f).readline()
-                except OSError:
-                    continue
-                if 'tr/%s.py' % g in head:
-                    for ext in ('.v', '.vo', '.vok', '.vos', '.glob'):
-                        try:
-                            os.remove(f[:-2] + ext)
-                        except OSError:
-                            pass
+            if hasattr(mod, 'generate_each'):
+                for fname, thunk in mod.generate_each(REPO).items():
+                    try:
+                        texts[fname] = thunk()
+                    except catch as e:
+                        msg = '%s: %s' % (type(e).__name__, e)
+                        errs.append((g + ':' + fname, msg))
+                        FALLBACK[fname] = msg if _fallback(fname) else msg + ' (no snapshot: file removed)'
+            else:
+                texts.update(mod.generate_all(REPO))
+        except catch as e:
+            msg = '%s: %s' % (type(e).__name__, e)
+            errs.append((g, msg))
+            for fname in _owned_files(g):
+                FALLBACK[fname] = msg if _fallback(fname) else msg + ' (no snapshot: file removed)'
+    # a regenerated model with which the development is already known not to build (memo written by
+    # standard_proof_phase in an earlier run on the same sources) is not built again: straight to the fallback
+    _REGEN_KEY[0] = _dev_hash(texts)
+    memo = os.path.join(_BADGEN, _REGEN_KEY[0] + '.json')
+    known_bad = {}
+    if os.path.exists(memo):
+        try:
+            known_bad = json.load(open(memo))
+        except (OSError, ValueError):
+            known_bad = {}
+    for fname, text in texts.items():
+        if fname in known_bad and _fallback(fname):
+            FALLBACK[fname] = known_bad[fname]
+        else:
+            write_if_changed(os.path.join(COQ, 'Gen', fname), text)
     return errs
 
 
@@ -303,11 +379,45 @@ def standard_proof_phase(ctx, gen_files_used=()):
     ok = True
     errs = regen()
     good, failing, log = coq_make()
+    if not good:
+        # the development does not build with the model regenerated from the current source.  If a regenerated file
+        # differs from the last accepted one, the proofs ABOUT that file are what broke: the properties owning its
+        # translator tie report it (below); every other property goes on with the last accepted model, tied to the
+        # code by its own correspondence checks in this very run.
+        changed = []
+        for f in sorted(glob.glob(os.path.join(COQ, 'Gen', '*.v'))):
+            snap = os.path.join(SNAP, os.path.basename(f))
+            if os.path.exists(snap) and open(snap).read() != open(f).read():
+                changed.append(os.path.basename(f))
+        for fname in changed:
+            _fallback(fname)
+            FALLBACK[fname] = ('the proofs about the model regenerated from the current source no longer check '
+                               '(files failing to build: %s)' % (failing or '?'))
+            good2, failing2, log2 = coq_make()
+            if good2:
+                good, log = True, log2
+                ctx.extra['coq_build_failures_with_regenerated_model'] = failing or ['?']
+                failing = []
+                try:
+                    os.makedirs(_BADGEN, exist_ok=True)
+                    with open(os.path.join(_BADGEN, _REGEN_KEY[0] + '.json'), 'w') as fh:
+                        json.dump({f: FALLBACK[f] for f in changed if f in FALLBACK}, fh)
+                except OSError:
+                    pass
+                break
+            failing = failing2
     # Only what Props/<pid>.v depends on decides this property: a generator or proof
     # file of another slice that fails is recorded, and becomes this property's
     # broken obligation exactly when Props/<pid>.v no longer compiles because of it.
     if errs:
         ctx.extra['translator_errors'] = ['%s: %s' % ge for ge in errs]
+    if FALLBACK:
+        ctx.extra['translator_fallback'] = dict(FALLBACK)
+        mine = [f for f in FALLBACK if ctx.pid in GEN_OWNERS.get(f, ())]
+        if mine:
+            ctx.broken.append('translator tie of %s broken for %s: %s; the theorems now speak about the last accepted model '
+                              '(coq/GenSnapshot)' % (ctx.pid, ', '.join('Gen/' + f for f in mine), '; '.join(FALLBACK[f] for f in mine)))
+            ok = False
     if not good:
         ctx.extra['coq_build_failures'] = failing or ['?']
         ctx.extra['coq_log_tail'] = log[-1500:]
